@@ -27,6 +27,17 @@ CHECKS = {
             "check; values are compared through fmt of the Go results.",
             "TLA+ spec + TLC exhaustive, one implementation test per model transition, model table as oracle for exhaustive sequences",
             "DESIGN.md §3 C17"),
+    "C08": ("model_checking",
+            "Dispatch.tla models the port table, findService (lookup, one peek, scan in configured order) and the service's reads; "
+            "TLC checks FirstInOrder (operational scan = the property's declarative rule), StreamIntact and NobodyIfNone over one "
+            "port entry x all 206 service lists (0..4 of 5 stub services with/without prefix detectors) x tcp/udp x 34 connection "
+            "shapes (first segment 1, 2, all bytes; 1 KiB boundary) exhaustively and over 3-entry tables by simulation; every "
+            "generated configuration is wired by the real server.Run and every connection replayed through the real accept loop, "
+            "handle and findService; chosen stub and bytes read are compared with the specification.",
+            "Detector input is the client's first segment; clients that send nothing are not explored; stub services stand in "
+            "for real ones (routing does not depend on the service implementation).",
+            "TLA+ spec + TLC exhaustive/simulate generation, replay into real server.Run/findService",
+            "DESIGN.md §3 C08"),
 }
 
 NOT_YET = "check not built yet in this session (see DESIGN.md §10 for the order of construction)"
